@@ -3332,6 +3332,57 @@ impl<'a> Model<'a> {
         Ok(())
     }
 
+    // Makes sure that every cell in the block of a CSE array formula is a spill cell of
+    // its anchor. Structural edits move the cells of a block one by one (dropping the
+    // spill cells and re-creating the block when the anchor is moved); when the old and
+    // the new block overlap, cells of the new block are dropped again as stale spills.
+    pub(crate) fn restore_cse_spill_cells(&mut self, sheet: u32) -> Result<(), String> {
+        let anchors: Vec<(i32, i32, i32, i32)> = {
+            let ws = self.workbook.worksheet(sheet)?;
+            let mut result = Vec::new();
+            for (row, row_data) in &ws.sheet_data {
+                for (column, cell) in row_data {
+                    if let Cell::ArrayFormula {
+                        r,
+                        kind: ArrayKind::Cse,
+                        ..
+                    } = cell
+                    {
+                        result.push((*row, *column, r.0, r.1));
+                    }
+                }
+            }
+            result
+        };
+        for (row, column, width, height) in anchors {
+            for r in row..row + height {
+                for c in column..column + width {
+                    if r == row && c == column {
+                        continue;
+                    }
+                    let ws = self.workbook.worksheet(sheet)?;
+                    let s = match ws.cell(r, c) {
+                        Some(Cell::SpillCell { a, .. }) if *a == (row, column) => continue,
+                        Some(Cell::EmptyCell { s }) => *s,
+                        None => ws.get_style(r, c),
+                        // anything else is content that is not ours to overwrite
+                        Some(_) => continue,
+                    };
+                    self.workbook.worksheet_mut(sheet)?.update_cell(
+                        r,
+                        c,
+                        Cell::SpillCell {
+                            s,
+                            a: (row, column),
+                            v: SpillValue::Text(String::new()),
+                        },
+                    )?;
+                }
+            }
+        }
+        Ok(())
+    }
+
     /// Returns the style index for cell (`sheet`, `row`, `column`)
     pub fn get_cell_style_index(&self, sheet: u32, row: i32, column: i32) -> Result<i32, String> {
         // First check the cell, then row, the column
